@@ -277,6 +277,7 @@ func main() {
 	if repo != "/repo" {
 		replayDir = filepath.Join(work, "replays")
 	}
+	os.RemoveAll(replayDir) // replays of earlier runs are stale; reproducers worth keeping live under known/
 	os.MkdirAll(replayDir, 0o755)
 	timeout := time.Duration(meta.QuickTimeoutS) * time.Second
 	if tier == "thorough" {
